@@ -37,8 +37,18 @@ KINDS = ["CONDITIONED", "UNCONDITIONED", "UNINHABITED"]
 def space_closure(prog, sc, node):
     """closure of `values(spaces).map(closure).sum()` style aggregations -> (closure Scope) with elem = a space"""
     n = strip(node)
-    while n[0] == "call" and short_callee(n[1]) in ("fround2", "sum"):
-        n = strip(n[2][0])
+    from ..cfgq import inline_helper
+    for _ in range(3):
+        while n[0] == "call" and short_callee(n[1]) in ("fround2", "sum"):
+            n = strip(n[2][0])
+        if n[0] == "call" and short_callee(n[1]) not in ("map", "filter_map"):
+            # an aggregation helper that takes the term as a closure (`rounded_sum_of_spaces(spaces, |s| ..)`): its body with the closure in place
+            inl = inline_helper(prog, n)
+            if inl is None:
+                break
+            n = strip(inl)
+        else:
+            break
     if not (n[0] == "call" and short_callee(n[1]) in ("map", "filter_map")):
         return None, None
     cl = strip(n[2][1])
@@ -69,6 +79,14 @@ def predicate_by_value(ctx, rule, key, csc, fields, enums, expect, term_ref, lm,
             if not isinstance(fv, bool):
                 raise AnalysisError("%s: cannot evaluate the upstream filter for %s: %s" % (key, combo, fv))
             selected = selected and fv
+        # predicate helpers of the workspace (`s.is_inhabited_inside_tenv()`, also passed as function items) are evaluated under the same assignment
+        from ..cfgq import beta
+        def _inl(n_, at_=at):
+            m_ = strip(beta(csc.prog, n_))
+            if m_ != strip(n_) and not (m_[0] == "call" and csc.prog.callee_index().get(m_[1])):
+                return at_.value(m_)          # a closure value applied to the element: its body, reduced, under the same assignment
+            return TB.inline_predicate(csc.prog, m_, at_, 0)
+        at.inliner = _inl
         r = TB.eval_return(csc, at.value)
         if isinstance(r, tuple) and r and r[0] == "stuck":
             raise AnalysisError("%s: cannot evaluate closure for %s: %s" % (key, combo, r[1]))
@@ -86,7 +104,8 @@ def predicate_by_value(ctx, rule, key, csc, fields, enums, expect, term_ref, lm,
     else:
         ctx.ok(rule, key, "truth table over %s agrees on all %d cases" % (names, len(list(itertools.product(*doms)))), loc)
     if term_ref and term_nodes:
-        compare(ctx, rule.replace("scope", "term"), key.replace("scope", "term"), term_nodes[0], term_ref, lm, None, loc, key.split("|")[-1])
+        from ..cfgq import beta
+        compare(ctx, rule.replace("scope", "term"), key.replace("scope", "term"), beta(csc.prog, term_nodes[0]), term_ref, lm, None, loc, key.split("|")[-1])
 
 
 def threshold_chain_of(prog, fn, var="tilt"):
@@ -129,7 +148,8 @@ def check_envelope_membership(ctx, prog, ep, root, rule="c11.scope"):
             if n[0] == "call" and short_callee(n[1]) in ("is_some", "is_none") and n[2] and (leaf_name(strip(n[2][0])) or "").endswith(".next_to"):
                 return "1" if (hn == (short_callee(n[1]) == "is_some")) else "0"
             # "is the space inside the envelope" lookups: map_or(false, ..) on a space lookup, or a local closure applied to a space id
-            if n[0] == "call" and (short_callee(n[1]) in ("map_or", "call", "is_some_and", "unwrap_or") or "{closure" in short_callee(n[1])):
+            if n[0] == "call" and (short_callee(n[1]) in ("map_or", "call", "is_some_and", "unwrap_or") or "{closure" in short_callee(n[1])
+                                   or (prog.callee_index().get(n[1]) and any(prog.fns[i_].raw.get("ret") == "bool" for i_ in prog.callee_index().get(n[1])))):
                 full = show(n)
                 if "next_to" in full:
                     return "1" if (hn and ni) else "0"
@@ -167,22 +187,48 @@ def check_envelope_membership(ctx, prog, ep, root, rule="c11.scope"):
             ids_ = [i_ for i_ in prog.callee_index().get(r0[1], ()) if prog.fns[i_].root == i_ and not prog.fns[i_].raw.get("pub")]
             if len(ids_) == 1 and prog.fns[ids_[0]].body.loops():
                 helper_set = (prog.fns[ids_[0]], r0)
+        elif r0[0] == "var" and wsc.body.loops():
+            # the same loop written in the function itself: `let mut ids = Vec::new(); for wall in &model.walls { if !.. { continue; } ids.push(wall.id); }`
+            owner = wsc
+            while owner is not None and not (isinstance(r0[1], int) and owner.body.names.get(r0[1]) == r0[2]):
+                owner = owner.parent
+            if owner is not None:
+                helper_set = (owner.fn, ("local", r0[1], owner))
     if helper_set is not None:
         # form C: the set is filled by a loop over the walls in a private helper (`for wall in &model.walls { .. if is_tenv { ids.push(wall.id) } }`):
         # a wall is a member when the walk from the top of the loop body reaches the push under the assignment
         from ..loops import classify_loops
         from ..cfgq import norm_for_elem
         hfn, hcall = helper_set
-        hsc = Scope(prog, hfn, argmap={i_ + 1: a_ for i_, a_ in enumerate(hcall[2])})
-        loops_ = [l_ for l_ in classify_loops(prog, hfn) if l_["kind"] == "iterator" and (l_.get("source") or "").endswith("walls")]
-        ctx.require(len(loops_) == 1, "%s: one loop over the model's walls expected" % hfn.path.split("::")[-1])
+        set_local = None
+        if hcall[0] == "local":
+            hsc, set_local = hcall[2], hcall[1]
+        else:
+            hsc = Scope(prog, hfn, argmap={i_ + 1: a_ for i_, a_ in enumerate(hcall[2])})
+        loops_ = []
+        for l_ in classify_loops(prog, hfn):
+            if l_["kind"] != "iterator" or not (l_.get("source") or "").endswith("walls"):
+                continue
+            # the loop that fills the set (a function may loop over the walls more than once)
+            fills = False
+            for b_ in l_["blocks"]:
+                t_ = hfn.body.blocks[b_]["term"]
+                if t_["t"] == "call" and short_callee(callee_name(t_) or "") in ("push", "insert") and len(t_["args"]) == 2:
+                    recv_ = strip(hsc.eb.operand(t_["args"][0]))
+                    val_ = norm_for_elem(strip(hsc.operand(t_["args"][1])))
+                    if (leaf_name(val_) or "").endswith("walls[].id") and (set_local is None or (recv_[0] == "var" and recv_[1] == set_local)):
+                        fills = True
+            if fills:
+                loops_.append(l_)
+        ctx.require(len(loops_) == 1, "%s: one loop over the model's walls that fills the envelope set expected, found %d" % (hfn.path.split("::")[-1], len(loops_)))
         lp = loops_[0]
         pushes = []
         for b_ in sorted(lp["blocks"]):
             t_ = hfn.body.blocks[b_]["term"]
             if t_["t"] == "call" and short_callee(callee_name(t_) or "") in ("push", "insert") and len(t_["args"]) == 2:
                 val_ = norm_for_elem(strip(hsc.operand(t_["args"][1])))
-                if (leaf_name(val_) or "").endswith("walls[].id"):
+                recv_ = strip(hsc.eb.operand(t_["args"][0]))
+                if (leaf_name(val_) or "").endswith("walls[].id") and (set_local is None or (recv_[0] == "var" and recv_[1] == set_local)):
                     pushes.append(b_)
         ctx.require(len(pushes) == 1, "%s: one `push(wall.id)` inside the loop expected, found %d" % (hfn.path.split("::")[-1], len(pushes)))
         # top of the loop body: the Some arm of the switch on next()
@@ -327,9 +373,14 @@ def run(ctx):
     check_no_early_exit(ctx, "c11.loop", prog, ep, "the reference area, volumes and envelope sets")
     root = Scope(prog, ep)
     gl = None
-    for b, i, s in ep.body.statements():
-        if s["s"] == "assign" and s["rv"]["r"] == "agg" and s["rv"].get("adt", "").endswith("GlobalProps"):
-            gl = (root.rvalue(s["rv"]), s.get("ln"))
+    groot = root
+    # the global section may have been moved into a private function of the module (`global_props(model, &spaces, ..)`): it is read there, with the
+    # parameters bound to the caller's values
+    for sc_ in root.all_scopes():
+        for b, i, s in sc_.body.statements():
+            if s["s"] == "assign" and s["rv"]["r"] == "agg" and s["rv"].get("adt", "").endswith("GlobalProps"):
+                gl = (sc_.rvalue(s["rv"]), s.get("ln"))
+                groot = sc_
     ctx.require(gl is not None, "GlobalProps literal not found")
     g = {k: strip(v) for k, v in zip(gl[0][2], gl[0][3])}
     lmS = LeafMap({"S[].area": "a", "S[].multiplier": "m", "S[].height": "h", "S[].height_net": "hn"})
@@ -341,14 +392,22 @@ def run(ctx):
         ("vol_env_inh_net", ["inside_tenv", "kind"], lambda a: a["inside_tenv"] and a["kind"] != "UNINHABITED", "a * hn * m"),
     ]
     for fld, atoms, pred, term in spec:
-        csc, ch = space_closure(prog, root, g[fld])
+        csc, ch = space_closure(prog, groot, g[fld])
         ctx.require(csc is not None, "GlobalProps.%s is not a map/sum over the spaces" % fld)
         ctx.require((ch.source_name() or "").endswith("spaces"), "GlobalProps.%s iterates over %s" % (fld, ch.source_name()))
         predicate_by_value(ctx, "c11.scope", "c11.scope|%s" % fld, csc, atoms, enums, pred, term, lmS, ep.loc(gl[1]))
     # compactness
-    cdefs = local_defs(root, "compactness")
+    cdefs = local_defs(groot, "compactness")
     ctx.require(len(cdefs) == 1, "compactness not found")
     defs = next(iter(cdefs.values()))
+    if len(defs) == 1 and defs[0][1][0] == "call":
+        # computed by a private function of the module (`compute_compactness(vol, &walls)`): read there, with the parameters bound
+        hc = defs[0][1]
+        ids_ = [i_ for i_ in prog.callee_index().get(hc[1], ()) if prog.fns[i_].root == i_ and not prog.fns[i_].raw.get("pub")]
+        if len(ids_) == 1 and prog.fns[ids_[0]].body.argc == len(hc[2]):
+            hfn = prog.fns[ids_[0]]
+            groot = Scope(prog, hfn, argmap={i_ + 1: a_ for i_, a_ in enumerate(hc[2])})
+            defs = [(b_, strip(groot._rw(n_)), None) for b_, n_ in returned_nodes(hfn.body)]
     q = [(b, n, ln) for b, n, ln in defs if n[0] == "bin" and n[1] == "Div"]
     z = [(b, n, ln) for b, n, ln in defs if n[0] == "k"]
     okc = False
@@ -366,21 +425,25 @@ def run(ctx):
             fcl = [c for (a, c) in ch.steps if a == "filter"]
             mcl = [c for (a, c) in ch.steps if a == "map"]
             if len(fcl) == 1 and len(mcl) == 1 and (ch.source_name() or "").endswith("walls"):
-                fsc = Scope(prog, prog.fns[closure_id_of(strip(fcl[0]))], closure_env(strip(fcl[0])), ("elem", "W", ()), root)
+                fsc = Scope(prog, prog.fns[closure_id_of(strip(fcl[0]))], closure_env(strip(fcl[0])), ("elem", "W", ()), groot)
                 bt = [v["name"] for v in prog.adt("bemodel::types::common::BoundaryType")["variants"]]
                 scope_table(ctx, "c11.scope", "c11.scope|compactness-area", fsc, ["is_tenv", "bounds"], {"bounds": bt},
                             lambda a: a["is_tenv"] and a["bounds"] in ("EXTERIOR", "GROUND"), ep.loc(ln))
-                tr = closure_return(prog, root, mcl[0], ("elem", "W", ()))
+                tr = closure_return(prog, groot, mcl[0], ("elem", "W", ()))
                 compare(ctx, "c11.term", "c11.term|compactness-area", tr, "ag * m", LeafMap({"W[].area_gross": "ag", "W[].multiplier": "m"}), None, ep.loc(ln), "exposed area term")
                 okden = True
-        conds = [(strip(c), bool_taken(tk)) for (_, d, c, tk) in root.conditions(b)]
+        conds = [(strip(c), bool_taken(tk)) for (_, d, c, tk) in groot.conditions(b)]
         guarded = any(c[0] == "bin" and c[1] in ("Eq", "Gt", "Lt", "Le") and origin_desc(strip(c[2])) == origin_desc(den) for c, v in conds)
         okc = same_num and okden and guarded
     if okc:
         ctx.ok("c11.term", "c11.term|compactness", "compactness = V_gross / A_exposed, 0 when the exposed area is 0", ep.loc())
+    elif not q:
+        # no quotient among the definitions of `compactness` here: it is computed elsewhere (a helper with its own zero test) in a form this rule does not read
+        raise AnalysisError("compactness is not defined by a quotient in %s (definitions: %s): cannot decide" % (groot.fn.path.split("::")[-1], [show(n_)[:50] for _, n_, _ in defs][:3]))
     else:
         ctx.violation("c11.term", "c11.term|compactness", "compactness is not `gross volume / exposed area` guarded against a zero area", ep.loc())
     check_envelope_membership(ctx, prog, ep, root)
+    check_floor_either_side(ctx, prog)
     # D3 ventilation siblings
     gv = g["global_ventilation_rate"]
     mv = prog.method("types::model::Model", None, "global_ventilation_rate")
@@ -400,7 +463,7 @@ def run(ctx):
         src = leaf_name(strip(m[2][0]))
         r = closure_return(prog, sc, m[2][1], ("named", "nlps"))
         return src, r
-    pa = vent_parts(prog, root, gv, "S")
+    pa = vent_parts(prog, groot, gv, "S")
     pb = vent_parts(prog, msc, mnode, "S")
     ctx.require(pa is not None and pb is not None, "ventilation rate expressions not of the form l_s.map(|n| 3.6 n / V).unwrap_or_default()")
     for label, (src, r), sc_ in (("EnergyProps", pa, root), ("Model", pb, msc)):
@@ -451,6 +514,82 @@ def run(ctx):
                     ctx.violation("c11.copy", key, "EnergyIndicators.%s is %s" % (fld, fl2[fld][:80]), comp.loc(s.get("ln")))
     # D4 classifiers
     check_classifiers(ctx, prog)
+
+
+def check_floor_either_side(ctx, prog, rule="c11.scope"):
+    """"the floor area of a space": a horizontal partition is declared once, from the space below (its ceiling: tilt class TOP, next_to = the space above) or from
+    the space above (its floor: tilt class BOTTOM).  Space::height_net looks for the ceiling from either side; Space::area must find the floor from either side:
+    an element counts for the space when (it belongs to the space and is a floor) or (it belongs to another space, names this space as adjacent and is a ceiling).
+    Truth table of the conditions under which `area += ..` runs, over (own element, adjacent = this space, tilt class)."""
+    from ..mir import callee_name
+    f = prog.method("types::space::Space", None, "area")
+    sc = Scope(prog, f)
+    ups = [u for u in updates(sc) if u["op"] == "+=" and "area(" in show(u["term"])]
+    ctx.require(len(ups) >= 1, "Space::area: the accumulation `area += element area` was not found")
+    TILTS = ["TOP", "BOTTOM", "SIDE"]
+    bad = []
+    ncase = 0
+    for own, nxt, tilt in itertools.product((True, False), (True, False), TILTS):
+        def atom(n):
+            n = strip(n)
+            if n[0] == "un" and n[1] == "Not":
+                v = atom(n[2])
+                return None if v is None else ("0" if v == "1" else "1")
+            if n[0] == "discr" and "next(" in show(n):
+                return "1"
+            txt = show(n)
+            if n[0] == "call" and short_callee(n[1]) in ("eq", "ne") and len(n[2]) == 2:
+                a, b = strip(n[2][0]), strip(n[2][1])
+                names = [leaf_name(a) or show(a), leaf_name(b) or show(b)]
+                res = None
+                if any(x.endswith(".space") for x in names) and any(x.endswith("self.id") for x in names):
+                    res = own
+                elif any(x.endswith(".next_to") or "next_to" in x for x in names) and "self.id" in txt:
+                    res = nxt
+                else:
+                    for x in (a, b):
+                        if x[0] == "agg" and x[1].split("::")[-1].rstrip("{}") in TILTS and "tilt" in txt:
+                            res = (tilt == x[1].split("::")[-1].rstrip("{}"))
+                if res is None:
+                    return None
+                return "1" if (res == (short_callee(n[1]) == "eq")) else "0"
+            if n[0] == "call" and short_callee(n[1]) in ("map_or", "is_some_and") and "next_to" in txt and "self.id" in txt:
+                return "1" if nxt else "0"
+            if n[0] == "discr" and "tilt" in txt:
+                return str(TILTS.index(tilt)) if False else None
+            if n[0] == "bin" and n[1] in ("BitAnd", "BitOr"):
+                x, y = atom(n[2]), atom(n[3])
+                if x is None or y is None:
+                    return None
+                return "1" if ((x == "1" and y == "1") if n[1] == "BitAnd" else (x == "1" or y == "1")) else "0"
+            if n[0] == "k" and n[1] in ("true", "false"):
+                return "1" if n[1] == "true" else "0"
+            return None
+        counted = False
+        for u in ups:
+            holds = True
+            for (s_, d, n, tk) in u["scope"].conditions(u["bb"]):
+                v = atom(n)
+                if v is None:
+                    raise AnalysisError("Space::area: cannot evaluate the condition %s" % show(strip(n))[:100])
+                if tk.startswith("else:"):
+                    ok_ = v not in tk[5:].split(",")
+                else:
+                    ok_ = v == tk
+                holds = holds and ok_
+            counted = counted or holds
+        ncase += 1
+        want = (own and tilt == "BOTTOM") or (nxt and not own and tilt == "TOP")
+        if counted != want:
+            bad.append("(%s element, %s, %s) -> %s" % ("own" if own else "another space's", "adjacent = this space" if nxt else "not adjacent to this space", tilt,
+                                                        "counted" if counted else "not counted"))
+    key = rule + "|Space::area|either-side"
+    if bad:
+        ctx.violation(rule, key, "the floor area of a space misses or adds elements on %d of %d cases: %s - a space whose floor slab is declared as the ceiling of the space below "
+                      "(tilt class TOP, next_to = this space) gets area 0, so it drops out of the reference area and of every volume (Space::height_net does look for the "
+                      "ceiling from either side)" % (len(bad), ncase, "; ".join(bad[:3])), f.loc(ups[0]["line"]))
+    else:
+        ctx.ok(rule, key, "floors are found from either side: own BOTTOM elements and TOP elements of the space below that name this space (12 cases)", f.loc(ups[0]["line"]))
 
 
 def check_model_ventilation(ctx, prog, rule):
